@@ -102,6 +102,9 @@ def encChunks (C : Crypto) : Auth → List Bytes → Bytes × Auth
     let (ws, a) := encChunks C a ps
     (w ++ ws, a)
 
+/-- the `payload_limit` each encoder is created with (`aead::new_encoder` / `aead_2022::new_encoder`) -/
+def Kind.payloadLimit (k : Kind) : Nat := if k.is2022 then Consts.ss2022PayloadLimit else Consts.ssLegacyPayloadLimit
+
 def encPayload (C : Crypto) (a : Auth) (payloadLimit : Nat) (p : Bytes) : Bytes × Auth :=
   encChunks C a (splitChunks (chunkLimit payloadLimit) p)
 
@@ -188,7 +191,7 @@ deriving Repr
 def encode (C : Crypto) (ctx : Ctx) (s : Sess) (e : Enc) (item : Bytes) (r : EncRand) : Bytes × Enc :=
   match e.auth with
   | some a =>
-    let (w, a) := encPayload C a 0xffff item
+    let (w, a) := encPayload C a ctx.kind.payloadLimit item
     (w, ⟨some a⟩)
   | none =>
     -- init_payload_encoder
@@ -207,10 +210,10 @@ def encode (C : Crypto) (ctx : Ctx) (s : Sess) (e : Enc) (item : Bytes) (r : Enc
       | .server => item
     if ctx.kind.is2022 then
       let (hdr, rest, a) := newHeader C a msg s.mode s.requestSalt r.now
-      let (w, a) := encPayload C a 0xffff rest
+      let (w, a) := encPayload C a ctx.kind.payloadLimit rest
       (s.salt ++ eih ++ hdr ++ w, ⟨some a⟩)
     else
-      let (w, a) := encPayload C a 0xffff msg
+      let (w, a) := encPayload C a ctx.kind.payloadLimit msg
       (s.salt ++ eih ++ w, ⟨some a⟩)
 
 /-- every write of a session through `encode`, in order: the bytes put on the wire -/
